@@ -63,6 +63,7 @@ func NewSandboxNamed(root, name string) *Sandbox {
 	os.MkdirAll(s.Ctl, 0o755)
 	os.Setenv("VLOG", s.Log)
 	os.Setenv("VCTL", s.Ctl)
+	os.Setenv("VPROJ", s.Dir)
 	return s
 }
 
